@@ -208,3 +208,30 @@ def sany(module):
                        stderr=subprocess.STDOUT, text=True)
     ok = p.returncode == 0 and 'Semantic errors' not in p.stdout and '*** Errors' not in p.stdout and 'Fatal errors' not in p.stdout
     return ok, p.stdout
+
+
+def simulate(module, cfg, *, num, depth, seed=1, timeout=1200, heap='2g'):
+    '''Random behaviours of the specification: runs TLC in simulation mode, returns a list of behaviours, each a
+    list of states {var: value} (TLA+ values parsed to Python).'''
+    import glob
+    work = subdir('sim-' + module)
+    spec = os.path.join(SPEC_DIR, module + '.tla')
+    cfgp = cfg if os.path.isabs(cfg) else os.path.join(SPEC_DIR, cfg)
+    prefix = os.path.join(work, 'tr')
+    cmd = ['java', '-XX:+UseParallelGC', '-Xmx' + heap, '-cp', JAR, 'tlc2.TLC', '-simulate', 'file=%s,num=%d' % (prefix, num), '-depth', str(depth),
+           '-workers', '1', '-seed', str(seed), '-metadir', os.path.join(work, 'meta'), '-noGenerateSpecTE', '-deadlock', '-config', cfgp, spec]
+    e = dict(os.environ)
+    e.pop('JAVA_TOOL_OPTIONS', None)
+    p = subprocess.run(cmd, cwd=work, env=e, stdout=subprocess.PIPE, stderr=subprocess.STDOUT, timeout=timeout, text=True, errors='replace')
+    out = []
+    for path in sorted(glob.glob(prefix + '_*')):
+        with open(path) as fh:
+            text = fh.read()
+        states = []
+        for chunk in re.split(r'^STATE_\d+ ==\s*$', text, flags=re.M)[1:]:
+            body = chunk.split('\n\\*')[0].split('\n====')[0]
+            body = '\n'.join(l for l in body.split('\n') if l.strip())
+            states.append({k: tlaval.plain(v) for k, v in tlaval.parse_state(body + '\n').items()})
+        if states:
+            out.append(states)
+    return out, p.stdout
